@@ -138,7 +138,7 @@ from vlib.result import Collector, RepoRaised, repo_call
 
 ID = 'C13'
 TECHNIQUE = ('model-based stateful property testing (Hypothesis-generated operation histories against a last-write model; '
-             'differential oracle: freshly built objects and the functional API)')
+             'differential oracle: freshly built objects and the functional API) + coverage-guided fuzzing shards (atheris/libFuzzer driving the same strategy)')
 LEVEL = 'exploration'
 LEVEL_TEXT = ('Generated-input exploration of setter/set_state histories (<= 12 steps quick, <= 40 thorough) over CPL/CTL/layered '
               'configurations; after every step every listed derived quantity is compared with a freshly built world placed '
